@@ -29,7 +29,7 @@ var shard, nshards = 0, 1
 // mine reports whether the current case id belongs to this shard; generators always run (the PRNG
 // stream is the same in every shard), only the evaluation is divided.
 func mine() bool {
-	if id < 3 { // the constants and the two hand-written witness files: shard 0 (first replays)
+	if id < 6 { // the constants and the hand-written witness cases: shard 0 (first replays)
 		if shard == 0 {
 			return true
 		}
@@ -500,6 +500,206 @@ func genFile(r *hx.Rand) {
 	fileCase(lines, queries, pats)
 }
 
+
+// ---------------------------------------------------------------- kind=hist
+
+// A history on ONE Reader: several files (Reset between them), and after every result the caller
+// applies a benchproc Filter IN PLACE to the Reader's own Result (no Clone), as cmd/benchfilter
+// does. Every line is observed right after Scan (fresh), then matched and filtered; the oracle
+// judges each line on its own, whatever earlier lines and truncations left behind.
+type histLine struct {
+	name string
+	meas []meas
+}
+
+func joinOr(l []string, sep string) string {
+	if len(l) == 0 {
+		return "-"
+	}
+	return strings.Join(l, sep)
+}
+
+func histCase(files [][]histLine, fkind, pat string) {
+	if !mine() {
+		return
+	}
+	var fenc []string
+	for _, f := range files {
+		var lenc []string
+		for _, l := range f {
+			var ms []string
+			for _, m := range l.meas {
+				ms = append(ms, hx.F64(m.val)+":"+hx.HexS(m.unit))
+			}
+			lenc = append(lenc, "N"+hx.HexS(l.name)+":"+strings.Join(ms, "+"))
+		}
+		fenc = append(fenc, strings.Join(lenc, ";"))
+	}
+	head := fmt.Sprintf("case %d kind=hist files=%s fk=%s pat=%s", id, strings.Join(fenc, "|"), fkind, hx.HexS(pat))
+	defer func() {
+		if e := recover(); e != nil {
+			hx.Printf("%s ivals=- tag=crash\n", head)
+			hx.Printf("crash %d reader/filter panicked: %v\n", id, e)
+			id++
+		}
+	}()
+	var query string
+	switch fkind {
+	case "u":
+		query = ".unit:" + strconv.Quote(pat)
+	case "nu":
+		query = "-.unit:" + strconv.Quote(pat)
+	case "name":
+		query = ".name:" + pat
+	default:
+		query = "*"
+	}
+	flt, err := benchproc.NewFilter(query)
+	if err != nil {
+		panic("generator produced a bad filter " + query + ": " + err.Error())
+	}
+	tagSet := map[string]bool{}
+	if len(files) > 1 {
+		tagSet["reset"] = true
+	}
+	shape := "ok"
+	var rd *benchfmt.Reader
+	var freshF, keptF, afterF []string
+	// what the Reader's backing array holds (mechanism tag only): slot i last held a rescaled value
+	var slotRescaled []bool
+	curLen := 0
+	for fi, f := range files {
+		var text bytes.Buffer
+		for _, l := range f {
+			text.WriteString("Benchmark" + l.name + " 1")
+			for _, m := range l.meas {
+				text.WriteString(" " + m.text + " " + m.unit)
+			}
+			text.WriteString("\n")
+		}
+		if fi == 0 {
+			rd = benchfmt.NewReader(bytes.NewReader(text.Bytes()), "f0")
+		} else {
+			rd.Reset(bytes.NewReader(text.Bytes()), fmt.Sprintf("f%d", fi))
+			curLen = 0
+		}
+		var freshL, keptL, afterL []string
+		li := 0
+		for rd.Scan() {
+			res, ok := rd.Result().(*benchfmt.Result)
+			if !ok || li >= len(f) || len(res.Values) != len(f[li].meas) {
+				shape = "BAD"
+				li++
+				continue
+			}
+			var fr []string
+			for i, v := range res.Values {
+				fr = append(fr, valStr(v))
+				changed := tidiedName(f[li].meas[i].unit) != f[li].meas[i].unit
+				if changed {
+					tagSet["edit"] = true
+				}
+				for len(slotRescaled) <= i {
+					slotRescaled = append(slotRescaled, false)
+				}
+				if i >= curLen && slotRescaled[i] && !changed {
+					tagSet["reuse"] = true // a plain unit lands in a slot that was cut off while holding a rescaled one
+				}
+				slotRescaled[i] = changed
+			}
+			freshL = append(freshL, joinOr(fr, "+"))
+			m, _ := flt.Match(res)
+			var bits strings.Builder
+			for i := range res.Values {
+				if m.Test(i) {
+					bits.WriteByte('1')
+				} else {
+					bits.WriteByte('0')
+				}
+			}
+			keptL = append(keptL, bits.String())
+			n0 := len(res.Values)
+			flt.Apply(res) // in place, on the Reader's own Result
+			if len(res.Values) < n0 {
+				tagSet["trunc"] = true
+			}
+			curLen = len(res.Values)
+			var af []string
+			for _, v := range res.Values {
+				af = append(af, valStr(v))
+			}
+			afterL = append(afterL, joinOr(af, "+"))
+			li++
+		}
+		if li != len(f) {
+			shape = "BAD"
+		}
+		freshF = append(freshF, joinOr(freshL, ";"))
+		keptF = append(keptF, joinOr(keptL, ";"))
+		afterF = append(afterF, joinOr(afterL, ";"))
+	}
+	var tags []string
+	for t := range tagSet {
+		tags = append(tags, t)
+	}
+	sort.Strings(tags)
+	if len(tags) == 0 {
+		tags = []string{"trivial"}
+	}
+	fresh := strings.Join(freshF, "|")
+	hx.Printf("%s ivals=%s tag=%s\n", head, fresh, strings.Join(tags, "+"))
+	hx.Printf("obs %d shape=%s fresh=%s\n", id, shape, fresh)
+	hx.Printf("obs %d kept=%s after=%s\n", id, strings.Join(keptF, "|"), strings.Join(afterF, "|"))
+	hx.Printf("sobs %d rep=%s base=1\n", id, fresh)
+	hx.Printf("sobs %d kept=%s\n", id, strings.Join(keptF, "|"))
+	id++
+}
+
+var plainUnits = []string{"widgets/op", "allocs/op", "sec/op", "B/s", "B/op", "op/ns", "nsec", "x"}
+var scaledUnits = []string{"ns/op", "MB/s", "ns", "MB", "ns-MB", "MB*ns/op", "ns/ns"}
+
+func genHist(r *hx.Rand) {
+	pool := []string{hx.Pick(r, scaledUnits), hx.Pick(r, plainUnits), genReaderUnit(r)}
+	if r.Bool() {
+		pool = append(pool, hx.Pick(r, scaledUnits), hx.Pick(r, plainUnits))
+	}
+	nf := 1 + r.Intn(3)
+	files := make([][]histLine, nf)
+	for fi := range files {
+		for j := 1 + r.Intn(4); j > 0; j-- {
+			l := histLine{name: hx.Pick(r, []string{"Keep", "Skip"})}
+			for k := 1 + r.Intn(4); k > 0; k-- {
+				v := genVal(r)
+				t := numText(r, v)
+				pv, err := strconv.ParseFloat(t, 64)
+				if err != nil && !math.IsInf(pv, 0) {
+					panic("generator produced unparsable number " + t)
+				}
+				l.meas = append(l.meas, meas{t, pv, hx.Pick(r, pool)})
+			}
+			files[fi] = append(files[fi], l)
+		}
+	}
+	switch r.Intn(6) {
+	case 0, 1:
+		u := hx.Pick(r, pool)
+		if r.Bool() {
+			u = tidiedName(u)
+		}
+		histCase(files, "nu", u)
+	case 2, 3:
+		u := hx.Pick(r, pool)
+		if r.Bool() {
+			u = tidiedName(u)
+		}
+		histCase(files, "u", u)
+	case 4:
+		histCase(files, "name", "Keep")
+	default:
+		histCase(files, "all", "")
+	}
+}
+
 // ---------------------------------------------------------------- main
 
 func main() {
@@ -540,6 +740,13 @@ func main() {
 		{meas: []meas{{"0", 0, "MB/s"}, {"-Inf", math.Inf(-1), "ns-MB"}, {"3", 3, "B/op"}}},
 	}, []string{"ns/op", "sec/op", "MB/s", "B/s", "ns-MB", "sec-B", "MB/op", "B/op"}, []string{"MB/s", "B/s", "ns-MB", "sec-B", "B/op"})
 
+	// buffer-reuse witnesses (seed C04-E): a rescaled unit at position i, a truncation by an in-place
+	// filter or by Reset, then a plain unit at position i
+	m := func(t string, v float64, u string) meas { return meas{t, v, u} }
+	histCase([][]histLine{{{"Skip", []meas{m("100", 100, "ns/op")}}, {"Keep", []meas{m("3", 3, "widgets/op")}}}}, "name", "Keep")
+	histCase([][]histLine{{{"A", []meas{m("5", 5, "B/op"), m("100", 100, "ns/op")}}, {"B", []meas{m("7", 7, "B/op"), m("3", 3, "allocs/op")}}}}, "nu", "ns/op")
+	histCase([][]histLine{{{"X", []meas{m("100", 100, "ns/op"), m("2", 2, "MB/s")}}}, {{"Y", []meas{m("5", 5, "sec/op"), m("7", 7, "B/s")}}}}, "all", "")
+
 	// fixed units × special values
 	for _, u := range fixedUnits {
 		for _, v := range specialVals {
@@ -579,5 +786,11 @@ func main() {
 	nf := hx.N(6000, 120000)
 	for i := 0; i < nf; i++ {
 		genFile(r)
+	}
+
+	// histories on one Reader with in-place filtering and Reset
+	nh := hx.N(6000, 120000)
+	for i := 0; i < nh; i++ {
+		genHist(r)
 	}
 }
